@@ -873,6 +873,151 @@ def legacy_rx_deadline(rng):
     return fails, {'scenario': 'legacy_rx_deadline', 'late': late}
 
 
+# ---------------------------------------------------------------- C11
+def dup_fc_during_standby(rng):
+    """a duplicated ContinueToSend of the message just finished arrives while the First Frame of the next message is held back by the rate
+    limiter: it is reported as unexpected and changes nothing - the next message goes out whole once its own Flow Control arrives"""
+    clock = VClock().install()
+    fails = []
+    try:
+        sent, inbox, errors = [], [], []
+        l = mk({'rate_limit_enable': True, 'rate_limit_max_bitrate': int(3 * 64 / 0.125), 'rate_limit_window_size': 0.125, 'stmin': 0, 'rx_flowcontrol_timeout': 2000},
+               clock, sent, inbox, errors)
+        a_msg, b_msg = bytes(range(20)), bytes(range(100, 120))
+        l.send(a_msg); l.send(b_msg)
+        l.process()                              # First Frame of A
+        inbox.append(fcmsg(0, 0))
+        l.process()                              # its two Consecutive Frames: window used up, First Frame of B parked
+        inbox.append(fcmsg(0, 0))                # the duplicate
+        l.process()
+        granted_b = False
+        for step in range(60):
+            clock.tick(30 * 10**6)
+            l.process()
+            ffs = [m for m in sent if bytes(m.data)[0] >> 4 == 1]
+            if len(ffs) == 2 and not granted_b:
+                inbox.append(fcmsg(0, 0)); granted_b = True
+        ref = reference_frames({'stmin': 0}, a_msg) + reference_frames({'stmin': 0}, b_msg)
+        got = frames_of(sent)
+        names = [type(e).__name__ for e in errors]
+        if got != ref or l.transmitting() or names != ['UnexpectedFlowControlError']:
+            fails.append(('more-than-one-message-lost', 'duplicated ContinueToSend while the next First Frame is held by the rate limiter: %d of %d data frames emitted, errors %s, transmitting()=%s' % (
+                len(got), len(ref), names[:3], l.transmitting())))
+    finally:
+        clock.uninstall()
+    return fails, {'scenario': 'dup_fc_during_standby'}
+
+
+# ---------------------------------------------------------------- C13 (functional)
+def functional_to_threaded(rng):
+    """a started layer with NormalFixed / Mixed 29-bit addressing receives a functionally addressed Single Frame (its functional
+    identifier differs from the physical one): delivered like any other payload"""
+    import queue
+    q = queue.Queue()
+
+    def rxfn(timeout):
+        try:
+            return q.get(timeout=timeout) if timeout else q.get_nowait()
+        except queue.Empty:
+            return None
+    M = isotp.AddressingMode
+    mixed = rng.random() < 0.5
+    if mixed:
+        a = isotp.Address(M.Mixed_29bits, target_address=0x10, source_address=0x20, address_extension=0x99)
+        fid, data = 0x18CD2010, bytes([0x99, 3, 1, 2, 3])
+    else:
+        a = isotp.Address(M.NormalFixed_29bits, target_address=0x10, source_address=0x20)
+        fid, data = 0x18DB2010, bytes([3, 1, 2, 3])
+    L = isotp.TransportLayer(rxfn=rxfn, txfn=lambda m: None, address=a, params={}, read_timeout=0.02)
+    fails = []
+    try:
+        L.start()
+        msg = isotp.CanMessage(arbitration_id=fid, data=data, extended_id=True)
+        if not a.is_for_me(msg):
+            return [], {'scenario': 'functional_to_threaded', 'skipped': True}
+        q.put(msg)
+        got = L.recv(block=True, timeout=2.0)
+        if got is None or bytes(got) != bytes([1, 2, 3]):
+            fails.append(('not-exactly-once', 'functionally addressed Single Frame (id %x) put on the bus of a started %s layer: delivered %r' % (fid, 'Mixed_29bits' if mixed else 'NormalFixed_29bits', got)))
+    finally:
+        L.stop()
+    return fails, {'scenario': 'functional_to_threaded', 'mixed': mixed}
+
+
+# ---------------------------------------------------------------- C14 (crash)
+def start_after_worker_crash(rng):
+    """the worker thread dies on its own (txfn raised): the layer still counts as started - start() is refused with RuntimeError, and
+    stop() leaves no thread of the layer behind"""
+    import queue
+    q = queue.Queue()
+    base = set(threading.enumerate())
+
+    def rxfn(timeout):
+        try:
+            return q.get(timeout=timeout) if timeout else q.get_nowait()
+        except queue.Empty:
+            return None
+    state = {'raised': False}
+
+    def txfn(m):
+        if not state['raised']:
+            state['raised'] = True
+            raise OSError('bus off')
+    a = isotp.Address(isotp.AddressingMode.Normal_11bits, txid=0x111, rxid=0x222)
+    L = isotp.TransportLayer(rxfn=rxfn, txfn=txfn, address=a, params={}, read_timeout=0.05)
+    fails = []
+    import logging as _logging
+    _logging.getLogger('isotp').setLevel(_logging.CRITICAL + 1)
+    hook = threading.excepthook
+    threading.excepthook = lambda args: None        # the crash of the worker is the scenario, not something to print
+    L.start()
+    L.send(bytes([1, 2, 3]))
+    _time.sleep(0.3)                                # the worker has crashed by now
+    threading.excepthook = hook
+    try:
+        L.start()
+        second = 'ok'
+    except RuntimeError:
+        second = 'runtimeerror'
+    except Exception as e:
+        second = type(e).__name__
+    _time.sleep(0.03)
+    L.stop()
+    _time.sleep(0.1)
+    alive = [t for t in threading.enumerate() if t not in base and t.is_alive()]
+    if alive:
+        _time.sleep(0.4)
+        alive = [t for t in threading.enumerate() if t not in base and t.is_alive()]
+    if second != 'runtimeerror' or alive:
+        fails.append(('thread-leak' if alive else 'wrong-exception', 'start() on a started layer whose worker died: %s; after stop() %d thread(s) of the layer still alive' % (second, len(alive))))
+        if alive:
+            _time.sleep(1.0)
+    return fails, {'scenario': 'start_after_worker_crash'}
+
+
+# ---------------------------------------------------------------- C18
+def listen_switch(rng):
+    """listen_mode switched on with params.set() after a First Frame (or the end of a block) was read by a receive-only pass: from that
+    moment the layer emits nothing - the Flow Control still pending is not sent"""
+    clock = VClock().install()
+    fails = []
+    try:
+        sent, inbox, errors = [], [], []
+        big = rng.random() < 0.3
+        l = mk({'blocksize': 2, 'max_frame_size': 30 if big else 4095}, clock, sent, inbox, errors)
+        n = 40
+        inbox.append(isotp.CanMessage(arbitration_id=0x222, data=bytes([0x10, n, 1, 2, 3, 4, 5, 6])))
+        l.process(do_tx=False)
+        l.params.set('listen_mode', True)
+        for _ in range(3):
+            l.process()
+        if sent:
+            fails.append(('listener-transmitted', 'listen_mode switched on while a Flow Control (%s) was pending: the layer emitted %s' % ('Overflow' if big else 'ContinueToSend', bytes(sent[0].data).hex())))
+    finally:
+        clock.uninstall()
+    return fails, {'scenario': 'listen_switch'}
+
+
 # ---------------------------------------------------------------- C19 / C20
 def failed_kernel_bind(rng):
     """the kernel refuses bind() (OSError, e.g. an unknown interface): the wrapper is not bound - the option setters still write their
@@ -939,9 +1084,9 @@ def failed_kernel_bind(rng):
 SCENARIOS = {
     'C01': [reload_midstream], 'C04': [reload_midstream, txfn_raises, overflow_while_streaming], 'C02': [tuple_iterable], 'C17': [tuple_iterable], 'C03': [blocked_recv, fc_not_throttled, idle_stop_receiving_threaded, very_long_reception], 'C06': [fc_not_throttled],
     'C05': [clear_midreception], 'C07': [retimed, legacy_rx_deadline], 'C08': [slow_generator, stmin_raised_under_limiter], 'C10': [positional_process, very_long_reception], 'C12': [set_address_standby, stop_sending_while_streaming],
-    'C13': [send_before_start], 'C14': [legacy_sleep_timing, stop_with_backlog], 'C11': [threaded_receiver_times_out], 'C15': [bystander_layer, slow_txfn], 'C19': [failed_kernel_bind], 'C20': [failed_kernel_bind],
+    'C13': [send_before_start, functional_to_threaded], 'C14': [legacy_sleep_timing, stop_with_backlog, start_after_worker_crash], 'C11': [threaded_receiver_times_out, dup_fc_during_standby], 'C18': [listen_switch], 'C15': [bystander_layer, slow_txfn], 'C19': [failed_kernel_bind], 'C20': [failed_kernel_bind],
 }
-REPS = {'overflow_while_streaming': 2, 'stop_sending_while_streaming': 2, 'very_long_reception': 1, 'stop_with_backlog': 1, 'threaded_receiver_times_out': 2, 'idle_stop_receiving_threaded': 2, 'failed_kernel_bind': 6, 'blocked_recv': 4, 'send_before_start': 3, 'legacy_sleep_timing': 1, 'positional_process': 1}
+REPS = {'functional_to_threaded': 4, 'start_after_worker_crash': 1, 'overflow_while_streaming': 2, 'stop_sending_while_streaming': 2, 'very_long_reception': 1, 'stop_with_backlog': 1, 'threaded_receiver_times_out': 2, 'idle_stop_receiving_threaded': 2, 'failed_kernel_bind': 6, 'blocked_recv': 4, 'send_before_start': 3, 'legacy_sleep_timing': 1, 'positional_process': 1}
 TEXT = {f.__name__: ' '.join(f.__doc__.split()) for fs in SCENARIOS.values() for f in fs}
 
 
